@@ -150,7 +150,7 @@ def apiPublish (p : Nat) (topic : PyStr) (payload : Payload) (qos : Int) (retain
                                      alarm := none, initial := pr.initialT, ivValue := pr.initialT, ivK := 1,
                                      bandwith := pr.bandwith, factor := pr.factor, seq := w.nextSeq },
             nextReq := rid + 1, nextSeq := w.nextSeq + 1 }) ;;
-          setPAddr p (fun a => { a with queue := a.queue ++ [rid] }) ;;
+          setEnts (fun es => es ++ [⟨w.paddr p, .queue, 0, rid⟩]) ;;
           refill p
       if qos = 0 then
         match encodePublishPy topic payload 0 retain none with
@@ -196,7 +196,7 @@ def registerSubUnsub (p : Nat) (isSub : Bool) (i : Nat) (bs : Bytes) : Step :=
                                  dfd := some d, alarm := none, initial := pr.initialT, ivValue := pr.initialT,
                                  ivK := 1, bandwith := 1, factor := 1, seq := 0 },
         nextReq := rid + 1 }) ;;
-      setPAddr p (fun a => if isSub then { a with winSub := a.winSub.set i rid } else { a with winUnsub := a.winUnsub.set i rid }) ;;
+      setEnts (fun es => Ents.insert es (w.paddr p) (if isSub then .sub else .unsub) i rid) ;;
       retrySubUnsub p rid false isSub ;;
       emit (.retPending d (some i))
 
@@ -211,7 +211,7 @@ def apiSubscribe (p : Nat) (arg : SubArg) (qos : Int) : Step :=
         | .list l => some l
         | .other => none
       -- _checkSubscribe
-      if (w.paddr p).winSub.length ≥ (w.proto p).window then emit (.retFail .window)
+      if Ents.count w.ents (w.paddr p) .sub ≥ (w.proto p).window then emit (.retFail .window)
       else match topics with
         | none => emit (.retFail .type)
         | some ts =>
@@ -231,7 +231,7 @@ def apiUnsubscribe (p : Nat) (arg : UnsubArg) : Step :=
         | .str s => some [.str s]
         | .list l => some l
         | .other => none
-      if (w.paddr p).winUnsub.length ≥ (w.proto p).window then emit (.retFail .window)
+      if Ents.count w.ents (w.paddr p) .unsub ≥ (w.proto p).window then emit (.retFail .window)
       else match topics with
         | none => emit (.retFail .type)
         | some ts =>
